@@ -269,6 +269,22 @@ def gen_params():
     from fractions import Fraction
     fr = Fraction(fp)
     min_alloc = int_const(db, "MIN_ALLOC_SIZE")
+    # the two OS-level options only reach the map call and the open call (what "they only select OS flags" means)
+    allsrc = {f: strip_comments(src(f)) for f in ("db.rs", "tx.rs", "bucket.rs", "node.rs", "freelist.rs", "page.rs", "cursor.rs", "meta.rs")}
+    for f, txt in allsrc.items():
+        for opt in ("mmap_populate", "direct_write"):
+            n = len(re.findall(opt, txt))
+            if f != "db.rs" and n:
+                raise GenError("%s is used outside db.rs (%s): it no longer only selects an OS flag" % (opt, f))
+    dbs = allsrc["db.rs"]
+    uses_pop = re.findall(r"[^\n]*mmap_populate[^\n]*", dbs)
+    ok_pop = [u for u in uses_pop if re.search(r"pub fn mmap_populate\(mut self, mmap_populate: bool\)|self\.flags\.mmap_populate = mmap_populate;|mmap_populate: false,|pub\(crate\) mmap_populate: bool,|let mmap = mmap\(&?file, (self\.)?flags\.mmap_populate\)\?;", u)]
+    if len(ok_pop) != len(uses_pop) or not re.search(r"if populate \{\s*options\.populate\(\);\s*\}", dbs):
+        raise GenError("db.rs: mmap_populate is used somewhere other than the option setter and the two mmap calls")
+    uses_dw = [u for u in re.findall(r"[^\n]*direct_write[^\n]*", dbs)]
+    ok_dw = [u for u in uses_dw if re.search(r"pub fn direct_writes|self\.flags\.direct_writes = direct_writes|direct_writes: false|pub\(crate\) direct_writes: bool|open_file\(path, true, self\.flags\.direct_writes\)|fn open_file<P: AsRef<Path>>\(path: P, create: bool, direct_write: bool\)|if direct_write \{", u)]
+    if len(ok_dw) != len(uses_dw):
+        raise GenError("db.rs: direct_writes is used somewhere other than the option setter and open_file")
     # the growth formula the theorems of C16 are about (`grownSize`): pinned textually
     txs = strip_comments(src("tx.rs"))
     if not re.search(r"let alloc_size = \(\(size_diff / MIN_ALLOC_SIZE\) \+ 1\) \* MIN_ALLOC_SIZE;", txs) or \
